@@ -26,6 +26,7 @@ type Profile struct {
 	DefBackOnlyPct int      // ... and of those, the share that declares nothing else (default 30)
 	CaseDupAnn     bool     // some annotation keys are declared twice, differing by case only
 	SecretNames    []string // names of the tls secrets of every namespace (default t1..t3)
+	UnlabeledPods  bool     // a third of the pods carry no blue/green group label
 	PrefixDupAnn   bool     // some keys are declared with the 2nd and the 3rd annotation prefix (other values) instead of the main one
 	SingleDefBack  bool     // at most one ingress with spec.defaultBackend (the default host then has one owner)
 	SparseOK       bool     // focused worlds may be sparse
@@ -1216,6 +1217,9 @@ func (g *G) genPods(terminatingPct int) {
 					continue
 				}
 				pod := podFor(ep.NS, ep.Name, a, i)
+				if g.P.UnlabeledPods && g.chance("unlabeled", 33) {
+					delete(pod.Labels, "group")
+				}
 				pod.Terminating = g.chance("terminating", terminatingPct)
 				g.add(pod)
 			}
